@@ -62,41 +62,47 @@ def run(tier, seed, replay_path=None):
             return 1
         log("replay: Miri run is clean now")
         return 0
-    flags = "-Zmiri-many-seeds=%d..%d %s" % (start, start + nseeds, base)
-    p = run_miri(flags, [prog_seed, njobs], 3600)
-    out = p.stdout.decode(errors="replace")
-    err = p.stderr.decode(errors="replace")
-    ok_runs = out.count("MIRI_THREADS ok")
-    info = {"seeds": nseeds, "seed_range": [start, start + nseeds], "program_seed": prog_seed, "jobs": njobs, "threads": 3,
-            "clean_runs": ok_runs, "preemption_rate": 0.1, "wall_s": None, "violation": None}
+    # two batches: the general job mix, and one where all threads parse inputs with long whitespace runs through the
+    # built-in skipper at the same time (shared state in the hand-written terminal matchers is only reachable this way)
+    nws = int(os.environ.get("VERIF_MIRI_WS_SEEDS", 16 if tier == "quick" else 256))
+    batches = [("general", start, nseeds, njobs, []), ("whitespace", start + 500000, nws, 12, ["ws"])]
+    info = {"batches": [], "threads": 3, "preemption_rate": 0.1, "clean_runs": 0, "seeds": nseeds + nws, "wall_s": None, "violation": None}
     rc = 0
-    if p.returncode != 0:
-        kind = classify(err, out)
-        if kind is None:
-            raise HarnessError("miri run failed without a recognisable verdict:\n" + err[-3000:])
-        # find one failing seed so that the replay is a single repeatable execution
-        failing = None
-        m = re.search(r"seed (\d+)", "\n".join(l for l in err.splitlines() if "seed" in l.lower() and ("fail" in l.lower() or "error" in l.lower())))
-        cands = [int(m.group(1))] if m else []
-        cands += [s for s in range(start, start + nseeds) if s not in cands]
-        for s in cands[: nseeds + 1]:
-            q = run_miri("-Zmiri-seed=%d %s" % (s, base), [prog_seed, njobs], 1800)
-            if q.returncode != 0 and classify(q.stderr.decode(errors="replace"), q.stdout.decode(errors="replace")):
-                failing = s
-                err = q.stderr.decode(errors="replace")
-                out = q.stdout.decode(errors="replace")
-                break
-        detail = "\n".join(l for l in (out + "\n" + err).splitlines() if any(w in l for w in ("DIFFERENCE", "error", "race", "Undefined", "panicked")))[:3000]
-        path = write_replay("C20", "%d-miri-%s-%s" % (seed, kind, failing), {
-            "property": "C20", "kind": "miri:" + kind, "seed": seed, "miri_seed": failing,
-            "miriflags": ("-Zmiri-seed=%d %s" % (failing, base)) if failing is not None else flags, "args": [prog_seed, njobs],
-            "detail": detail, "note": "replay: ./check C20 --replay <this file> re-runs this Miri seed"})
-        log("VIOLATION property=C20 replay=%s" % path)
-        log("  miri: %s (miri seed %s)" % (kind, failing))
-        info["violation"] = kind
-        rc = 1
-    elif ok_runs != nseeds:
-        raise HarnessError("miri reported success but only %d of %d runs printed their verdict" % (ok_runs, nseeds))
+    for bname, bstart, bn, bjobs, extra in batches:
+        if bn <= 0 or rc:
+            continue
+        flags = "-Zmiri-many-seeds=%d..%d %s" % (bstart, bstart + bn, base)
+        args = [prog_seed, bjobs] + extra
+        p = run_miri(flags, args, 3600)
+        out = p.stdout.decode(errors="replace")
+        err = p.stderr.decode(errors="replace")
+        ok_runs = out.count("MIRI_THREADS ok")
+        info["batches"].append({"name": bname, "seed_range": [bstart, bstart + bn], "program_seed": prog_seed, "jobs": bjobs, "clean_runs": ok_runs})
+        info["clean_runs"] += ok_runs
+        if p.returncode != 0:
+            kind = classify(err, out)
+            if kind is None:
+                raise HarnessError("miri run failed without a recognisable verdict:\n" + err[-3000:])
+            # find one failing seed so that the replay is a single repeatable execution
+            failing = None
+            for s in range(bstart, bstart + bn):
+                q = run_miri("-Zmiri-seed=%d %s" % (s, base), args, 1800)
+                if q.returncode != 0 and classify(q.stderr.decode(errors="replace"), q.stdout.decode(errors="replace")):
+                    failing = s
+                    err = q.stderr.decode(errors="replace")
+                    out = q.stdout.decode(errors="replace")
+                    break
+            detail = "\n".join(l for l in (out + "\n" + err).splitlines() if any(w in l for w in ("DIFFERENCE", "error", "race", "Undefined", "panicked")))[:3000]
+            path = write_replay("C20", "%d-miri-%s-%s" % (seed, kind, failing), {
+                "property": "C20", "kind": "miri:" + kind, "seed": seed, "miri_seed": failing, "batch": bname,
+                "miriflags": ("-Zmiri-seed=%d %s" % (failing, base)) if failing is not None else flags, "args": args,
+                "detail": detail, "note": "replay: ./check C20 --replay <this file> re-runs this Miri seed"})
+            log("VIOLATION property=C20 replay=%s" % path)
+            log("  miri (%s batch): %s (miri seed %s)" % (bname, kind, failing))
+            info["violation"] = kind
+            rc = 1
+        elif ok_runs != bn:
+            raise HarnessError("miri reported success but only %d of %d runs printed their verdict" % (ok_runs, bn))
     info["wall_s"] = round(time.time() - t0, 1)
     # merge into the evidence file written by the parse-sim part
     ep = os.path.join(EVIDENCE_DIR, "C20.json")
@@ -110,5 +116,5 @@ def run(tier, seed, replay_path=None):
         f.write("\n")
     os.replace(ep + ".tmp", ep)
     if rc == 0:
-        log("C20 miri-sched: %d seeds x %d jobs on 3 threads, no data race, UB or differing result (%.1fs)" % (nseeds, njobs, info["wall_s"]))
+        log("C20 miri-sched: %d general + %d whitespace-focused seeds on 3 threads, no data race, UB or differing result (%.1fs)" % (nseeds, nws, info["wall_s"]))
     return rc
